@@ -19,6 +19,7 @@ import (
 	"pgregory.net/rapid"
 
 	"verifharness/hx"
+	"verifharness/observe"
 )
 
 // fakeBackend is a registry.Backend whose watch channels are driven by the
@@ -224,7 +225,11 @@ func updateHistory(t *testing.T) {
 			if a, b := dumpTable(got), dumpTable(want); a != b {
 				t.Fatalf("after update %d (%s, valid=%v) the active table is not the last good table\nactive:\n%s\nlast good:\n%s\nhistory:\n%s", i, side, valid, a, b, strings.Join(hist, "\n"))
 			}
-			// a few lookups must agree as well
+			// a few lookups must agree as well (also after somebody listed the table through the admin API)
+			if rapid.IntRange(0, 2).Draw(t, "admin-lists-the-active-table") == 0 {
+				hx.EvalN(observe.Poke(got))
+				hx.Class("admin-endpoints-read-the-active-table-before-the-lookups")
+			}
 			for _, s := range svcs {
 				req := func() *http.Request {
 					return &http.Request{Host: s.host, URL: &url.URL{Path: s.path + "/x"}, Header: http.Header{}}
@@ -233,6 +238,9 @@ func updateHistory(t *testing.T) {
 				w := want.Lookup(req(), "", route.Picker["rnd"], route.Matcher["prefix"], route.NewGlobCache(10), false)
 				if (g == nil) != (w == nil) {
 					t.Fatalf("lookup %s%s differs between active and last good table", s.host, s.path)
+				}
+				if a, b := routeOfTarget(got, g), routeOfTarget(want, w); a != b {
+					t.Fatalf("request %s%s/x is answered by route %q of the active table, by route %q of the last good table\nhistory:\n%s", s.host, s.path, a, b, strings.Join(hist, "\n"))
 				}
 			}
 		}
@@ -247,6 +255,23 @@ func updateHistory(t *testing.T) {
 			hx.Class("history-with-invalid")
 		}
 	})
+}
+
+// routeOfTarget names the route (host and path) of the table that holds the target.
+func routeOfTarget(tbl route.Table, tg *route.Target) string {
+	if tg == nil {
+		return "<none>"
+	}
+	for host, routes := range tbl {
+		for _, r := range routes {
+			for _, x := range r.Targets {
+				if x == tg || (x.URL != nil && tg.URL != nil && x.Service == tg.Service && x.URL.String() == tg.URL.String()) {
+					return host + r.Path
+				}
+			}
+		}
+	}
+	return "<not in the table>"
 }
 
 // textValid is the harness's own judgement of a combined config text built
